@@ -43,14 +43,14 @@ theorem docEq_setTail (ign : List Str) (a b : Tree) (h : docEq ign a b) :
 /-- **diff, format, finalize, project** -/
 theorem pipeline (bis : Dmp.Bisect) (sim : Sim) (qn : QName) (cfg : Cfg) (L R : Tree) (fresh : Nat) (ft : List Str)
     (w : Bool) (hF : 0 < cfg.F)
-    (hclean : CleanT L) (hshort : AllP ShortP L) (htag : AllP TagOK L) (hkL : L.payload.kind = .elem)
+    (hclean : CleanT L) (hshort : AllP (ShortP w) L) (htag : AllP TagOK L) (hkL : L.payload.kind = .elem)
     (hL : (ids L).Nodup) (hRn : (ids R).Nodup) (hdisj : ∀ i ∈ ids L, i ∉ ids R)
     (hfL : ∀ i ∈ ids L, i < fresh) (hfR : ∀ i ∈ ids R, i < fresh)
-    (hR : ∀ x ∈ bfs R, (keys x.payload.attrs).Nodup ∧ XClean (fun k => isDiffKey k = false) x ∧ ShortP x.payload ∧
+    (hR : ∀ x ∈ bfs R, (keys x.payload.attrs).Nodup ∧ XClean (fun k => isDiffKey k = false) x ∧ ShortP w x.payload ∧
       TagOK x.payload) :
     ∃ script final s' out after,
       scriptGen qn cfg L R (matchNodes cfg sim L R) fresh = .ok (script, final) ∧
-      runFmtE false bis qn (fstate0 L fresh ft [] w) script = .ok s' ∧
+      runFmtE w bis qn (fstate0 L fresh ft [] w) script = .ok s' ∧
       (∃ N, ∀ f, N ≤ f → undoElement f s'.ph diffElemList s'.tree = .ok (out, after)) ∧
       PlainT s'.ph out ∧
       docEq cfg.ignored (accFT out) (setTailT none R) ∧ rejFT out = setTailT none (bare L) := by
